@@ -117,6 +117,9 @@ func (h *fsmHarness) commit(f []string) string {
 		msg.Type, msg.Session, msg.Data, msg.ClientMessageId = robust.IRCFromClient, robust.Id{Id: h.lastSess}, "JOIN #c", idx
 	case kind == "p":
 		msg.Type, msg.Session, msg.Data, msg.ClientMessageId = robust.IRCFromClient, robust.Id{Id: h.lastSess}, fmt.Sprintf("PRIVMSG #c :m%d", idx), idx
+	case kind == "P":
+		// the test-only PANIC command (ROBUSTIRC_TESTING_ENABLE_PANIC_COMMAND=1): applying it panics
+		msg.Type, msg.Session, msg.Data, msg.ClientMessageId = robust.IRCFromClient, robust.Id{Id: h.lastSess}, "PANIC", idx
 	case strings.HasPrefix(kind, "x"):
 		msg.Type, msg.Revision = robust.Config, idx
 		msg.Data = fmt.Sprintf("SessionExpiration = \"%ss\"\n", kind[1:])
@@ -285,6 +288,52 @@ func (h *fsmHarness) op(f []string) (res string) {
 		}
 		h.replayAfter(idx, !ok)
 		return "ok"
+	case "resume":
+		// a new process after a crash: reopen the stores, rebuild the harness' copy of the durable log,
+		// then do what raft does at start-up (restore the newest snapshot, replay the log after it)
+		h.all = nil
+		h.open(false)
+		first, _ := h.logstore.FirstIndex()
+		last, _ := h.logstore.LastIndex()
+		for i := first; first > 0 && i <= last; i++ {
+			l := new(raft.Log)
+			if err := h.logstore.GetLog(i, l); err != nil {
+				continue
+			}
+			h.all = append(h.all, l)
+			if l.Type == raft.LogCommand {
+				m := robust.NewMessageFromBytes(l.Data, robust.IdFromRaftIndex(l.Index))
+				if m.Type == robust.CreateSession {
+					h.lastSess = l.Index
+				}
+			}
+		}
+		idx, ok, err := h.restoreLatest()
+		if err != nil {
+			return "error " + err.Error()
+		}
+		h.replayAfter(idx, !ok)
+		return "ok"
+	case "types":
+		var parts []string
+		for _, l := range h.all {
+			var cur raft.Log
+			if err := h.logstore.GetLog(l.Index, &cur); err != nil {
+				parts = append(parts, fmt.Sprintf("%d:missing", l.Index))
+				continue
+			}
+			if cur.Type != raft.LogCommand {
+				parts = append(parts, fmt.Sprintf("%d:raft", l.Index))
+				continue
+			}
+			m := robust.NewMessageFromBytes(cur.Data, robust.IdFromRaftIndex(cur.Index))
+			parts = append(parts, fmt.Sprintf("%d:%d:%d:%s", l.Index, int64(m.Type), m.ClientMessageId, ihex([]byte(m.Data))))
+		}
+		return strings.Join(parts, " ")
+	case "marker":
+		return strconv.FormatUint(ircServer.LastPostMessage(robust.Id{Id: iu64(f[1])}), 10)
+	case "dump":
+		return ircserver.VerifDump(ircServer)
 	case "status":
 		return h.status()
 	}
@@ -297,7 +346,7 @@ func TestVerifFsm(t *testing.T) {
 		t.Skip("VERIF_OPS not set")
 	}
 	defer in.Close()
-	outf, err := os.Create(os.Getenv("VERIF_OUT"))
+	outf, err := os.OpenFile(os.Getenv("VERIF_OUT"), os.O_CREATE|os.O_WRONLY|os.O_APPEND, 0o644)
 	if err != nil {
 		t.Fatal(err)
 	}
@@ -314,7 +363,11 @@ func TestVerifFsm(t *testing.T) {
 			fmt.Fprintln(out, "bad-op")
 			continue
 		}
+		if f[0] == "commit" && len(f) > 3 && f[3] == "P" {
+			out.Flush() // the process is about to die
+		}
 		fmt.Fprintln(out, h.op(f))
+		out.Flush()
 	}
 	if h.fsm != nil {
 		h.closeStores()
